@@ -78,7 +78,7 @@ def srcToks (src : Str) : List Tok := toksOf (stream (initState src none 0).lx)
 /-- the source text lexes without a lexer error -/
 def LexClean (src : Str) : Prop := hasErr (stream (initState src none 0).lx) = false
 
-theorem type_sound_run (fuel : Nat) (s0 s : PState) (hi : Inv s0) (w : W s0) (he : EofEnd s0)
+theorem type_sound_run (fuel : Nat) (s0 s : PState) (hi : Inv s0) (w : TW s0) (he : EofEnd s0)
     (h : (ty fuel >>= fun _ => expectEndOfInput).run s0 = .ok () s) (herr : s.errors = []) :
     ¬ Doomed s0 ∧ ∃ t ts e, sig (Toks s0) = ts ++ [e] ∧ e.kind = .eof ∧ IsTy ts t := by
   obtain ⟨_, s1, h1, h2⟩ := bind_dec (ty fuel) _ s0 s () h
@@ -178,7 +178,7 @@ theorem parseType_sound (rl : Nat) (src : Str) (root : Elem)
     exact ⟨fun _ => by simp [initState, Builder.new, Builder.startNode, textList, pendingText, curText],
       fun p hp => by simp [initState, Builder.new, Builder.startNode] at hp; simp [hp, initState, Builder.new],
       fun h => by simp [initState] at h, fun t h => by simp [initState] at h, fun h => by simp [initState] at h⟩
-  have w0 : W s0 := by subst hs0; exact ⟨rfl, by intro h; simp [initState] at h⟩
+  have w0 : TW s0 := by subst hs0; exact ⟨rfl, by intro h; simp [initState] at h⟩
   have htoks : Toks s0 = srcToks src := by subst hs0; rfl
   have hdoom : Doomed s0 ↔ ¬ LexClean src := by
     subst hs0
